@@ -121,13 +121,6 @@ Theorem C01_esds_core : forall h r l rsv r', bytes_ok r = true -> dec_esds h r =
 Proof. exact esds_core. Qed.
 Print Assumptions C01_esds_core.
 
-(* the dispatch table as a whole: every registered entry of the model is lossless and names its leaf *)
-Theorem C01_leaf_table : Forall entry_ok leaf_table.
-Proof. exact leaf_table_ok. Qed.
-Print Assumptions C01_leaf_table.
-Theorem C01_pre_table : Forall pre_entry_ok pre_table.
-Proof. exact pre_table_ok. Qed.
-Print Assumptions C01_pre_table.
 
 (* the tree: every slice accepted by the model of DecodeBoxSR whose tree is exact (compact headers whose size
    is Size(), guarded versions, no moov re-ordering, moof encodable) is reproduced bit for bit by the encoders
@@ -161,12 +154,14 @@ Theorem C01_header_local : local dec_hdr.
 Proof. exact local_hdr. Qed.
 Print Assumptions C01_header_local.
 
-(* print-then-parse, per leaf kind (every entry of the dispatch tables): a decoded leaf whose header is the one the
-   encoder writes (hdr_fits) is re-encoded by the Go encoder (reserved places filled with dflt_rsv) into exactly
-   Size() bytes, and the decoder applied to those bytes -- whatever follows them -- returns the same leaf, now with
-   the encoder's values as captured bytes *)
-Theorem C01_leaf_stable : Forall (fun e => leaf_stable (snd e)) leaf_table /\ Forall (fun e => pre_stable (fst (snd e))) pre_table.
-Proof. exact (conj leaf_table_stable pre_table_stable). Qed.
+(* the dispatch tables as a whole (C01_leaf_table, C01_pre_table, C01_leaf_stable of the earlier rounds, one statement): every
+   registered entry of the model is lossless and names its leaf; and print-then-parse per entry: a decoded leaf whose header is the
+   one the encoder writes (hdr_fits) is re-encoded by the Go encoder (reserved places filled with dflt_rsv) into exactly Size() bytes,
+   and the decoder applied to those bytes -- whatever follows them -- returns the same leaf, now with the encoder's values as
+   captured bytes *)
+Theorem C01_leaf_stable : Forall entry_ok leaf_table /\ Forall pre_entry_ok pre_table /\
+  Forall (fun e => leaf_stable (snd e)) leaf_table /\ Forall (fun e => pre_stable (fst (snd e))) pre_table.
+Proof. exact (conj leaf_table_ok (conj pre_table_ok (conj leaf_table_stable pre_table_stable))). Qed.
 Print Assumptions C01_leaf_stable.
 
 (* C01_fixpoint: for EVERY slice the model of DecodeBoxSR accepts completely with an exact tree t -- no hypothesis on the
@@ -183,14 +178,7 @@ Theorem C01_fixpoint : forall bs t, bytes_ok bs = true -> decode bs = Ok (t, [])
 Proof. exact fixpoint_full. Qed.
 Print Assumptions C01_fixpoint.
 
-(* the same for a file, box-tree mode and progressive files alike (File.Encode writes f.Children in decode order in both):
-   encode_seq_w = `for _, b := range f.Children { b.Encode(w) }` *)
-Theorem C01_file_boxtree : forall bs ts, bytes_ok bs = true -> decode_file bs = Ok ts -> forallb exact_box ts = true ->
-  exists enc, encode_seq false ts = Ok enc /\ encode_seq_w ts = Ok enc /\ lenN enc = lenN bs /\
-    decode_file enc = Ok (map norm_box ts) /\ encode_seq false (map norm_box ts) = Ok enc /\
-    encode_seq_w (map norm_box ts) = Ok enc.
-Proof. exact file_fixpoint_full. Qed.
-Print Assumptions C01_file_boxtree.
+(* C01_file_boxtree: stated below with the File-level acceptance rules of DecodeFileSR *)
 
 (* the special case proved first (inputs whose reserved bytes already have the encoder's values: enc = input) *)
 Theorem C01_fixpoint_partial : forall bs t, bytes_ok bs = true -> decode bs = Ok (t, []) -> why_box t = [] ->
@@ -343,19 +331,25 @@ Proof.
 Qed.
 Print Assumptions C01_file_rules.
 
-(* C01_file_accepted: for EVERY byte string that DecodeFileSR accepts (FOk: box-local AND File-level rules; files that reach
-   TrafBox.ParseReadSenc have the separate outcome FSencParse and are outside, see C02/C04) whose top-level trees are exact:
-   File.Encode (Box.Encode per child: progressive files, and fragmented files in EncModeBoxTree) and File.EncodeSW (one writer of
-   File.Size() bytes) succeed with the same bytes enc of the input's length; enc is accepted AGAIN by DecodeFileSR with the
-   same trees up to captured reserved bytes and the same IsFragmented(); encoding those gives enc again on both paths.
-   Accepted files outside the hypothesis: not exact (the reasons of why_box, per box) -- at the File level that adds
-   exactly the cut-short mdat (C01_file_truncated_mdat_refuted). *)
-Theorem C01_file_accepted : forall bs ts, bytes_ok bs = true -> decode_file_sr bs = FOk ts -> forallb exact_box ts = true ->
-  exists enc, file_encode_w ts = Ok enc /\ file_encode_sw ts = Ok enc /\ encode_seq false ts = Ok enc /\ lenN enc = lenN bs /\
-    decode_file_sr enc = FOk (map norm_box ts) /\ (file_frag (map norm_box ts) = file_frag ts) /\
-    file_encode_w (map norm_box ts) = Ok enc /\ file_encode_sw (map norm_box ts) = Ok enc.
-Proof. exact file_accepted_fixpoint. Qed.
-Print Assumptions C01_file_accepted.
+(* C01_file_boxtree, restated with the rules (first conjunct): for EVERY byte string that DecodeFileSR accepts (FOk: box-local AND
+   File-level rules; files that reach TrafBox.ParseReadSenc have the separate outcome FSencParse and are outside, see C02/C04) whose
+   top-level trees are exact: File.Encode (Box.Encode per child: progressive files, and fragmented files in EncModeBoxTree) and
+   File.EncodeSW (one writer of File.Size() bytes) succeed with the same bytes enc of the input's length; enc is accepted AGAIN by
+   DecodeFileSR with the same trees up to captured reserved bytes and the same IsFragmented(); encoding those gives enc again on both
+   paths.  Accepted files outside the hypothesis: not exact (the reasons of why_box, per box) -- at the File level that adds exactly
+   the cut-short mdat (C01_file_truncated_mdat_refuted).  Second conjunct: the statement of the earlier rounds, for the bare box loop
+   (no File-level rule applied: every sequence of acceptable boxes). *)
+Theorem C01_file_boxtree :
+  (forall bs ts, bytes_ok bs = true -> decode_file_sr bs = FOk ts -> forallb exact_box ts = true ->
+   exists enc, file_encode_w ts = Ok enc /\ file_encode_sw ts = Ok enc /\ encode_seq false ts = Ok enc /\ lenN enc = lenN bs /\
+     decode_file_sr enc = FOk (map norm_box ts) /\ (file_frag (map norm_box ts) = file_frag ts) /\
+     file_encode_w (map norm_box ts) = Ok enc /\ file_encode_sw (map norm_box ts) = Ok enc) /\
+  (forall bs ts, bytes_ok bs = true -> decode_file bs = Ok ts -> forallb exact_box ts = true ->
+   exists enc, encode_seq false ts = Ok enc /\ encode_seq_w ts = Ok enc /\ lenN enc = lenN bs /\
+     decode_file enc = Ok (map norm_box ts) /\ encode_seq false (map norm_box ts) = Ok enc /\
+     encode_seq_w (map norm_box ts) = Ok enc).
+Proof. exact (conj file_accepted_fixpoint file_fixpoint_full). Qed.
+Print Assumptions C01_file_boxtree.
 
 (* the hypotheses are satisfiable, in both configurations of the quantifier: PROGRESSIVE files with the mdat BEFORE the moov and
    with the moov before the mdat (File.Encode does not move boxes nor fix up offsets), empty mdats around the one with a
@@ -407,22 +401,11 @@ Proof. exact data_type_fixed. Qed.
 Print Assumptions C01_data_type_fixed.
 (* what leaf_guard excludes for wvtt is really not reproduced: a wvtt cut inside its eight prefix bytes is accepted (12 bytes in,
    16 bytes out) *)
-Theorem C01_wvtt_short_refuted : decode ex_wvtt_short = Ok (treeof ex_wvtt_short, [0; 0; 0; 0]) /\ exact_box (treeof ex_wvtt_short) = false /\
-  leaf_guard (LWvtt 0 true) = false /\ lenN ex_wvtt_short = 12 /\
-  match encode_w (treeof ex_wvtt_short) with Ok enc => lenN enc = 16 | _ => False end.
-Proof. exact wvtt_short_refuted. Qed.
-Print Assumptions C01_wvtt_short_refuted.
 
 (* (c) the two ghost guards (leaf_guard of LEsds / LSgpd) exclude inputs that are really NOT reproduced; each by a witness that
    the search replays on the real code: an esds size field of eleven bytes whose leading group overflows readSizeSize's uint64
    (C01-K77), and the reserved byte of a seig entry of sgpd (C01-K58).  An esds that merely kept UnknownData IS reproduced
    (C01_esds_slconfig_size_fixed); it is outside C01_fixpoint only because print-then-parse is not proved for that shape. *)
-Theorem C01_esds_size_overflow_refuted : refutes w_esds_overflow [(n_esds, RGuard); (n_esds, RRsv false 2)].
-Proof. exact esds_overflow_refuted. Qed.
-Print Assumptions C01_esds_size_overflow_refuted.
-Theorem C01_sgpd_seig_reserved_refuted : refutes w_sgpd_seig_rsv [(n_sgpd, RGuard); (n_sgpd, RRsv true 0)].
-Proof. exact sgpd_seig_rsv_refuted. Qed.
-Print Assumptions C01_sgpd_seig_reserved_refuted.
 
 (* dac3 / dec3 (AC-3 and E-AC-3 specific boxes, read through bits.Reader): typed, exact, fixed points; their guards exclude a dac3
    payload that is not InitialZeroes + 3 bytes (accepted: the bit reader's error is not looked at; C01-K73) and dec3 substreams
@@ -430,9 +413,18 @@ Print Assumptions C01_sgpd_seig_reserved_refuted.
 Example C01_ex_dac3_dec3 : fixed_point ex_dac3 /\ fixed_point ex_dac3_zeroes /\ fixed_point ex_dec3 /\
   match treeof ex_dec3 with MLeaf _ (LDec3 384 [(0, 16, 0, 0, 7, 1, 1, 289); (1, 16, 1, 0, 7, 0, 0, 0)] [170] true) _ => True | _ => False end.
 Proof. exact (conj (proj1 ex_dac3_ok) (conj (proj1 (proj2 ex_dac3_ok)) ex_dec3_ok)). Qed.
-Theorem C01_dac3_short_refuted : refutes w_dac3_short [(n_dac3, RSizeSmall); (n_dac3, RGuard)].
-Proof. exact dac3_short_refuted. Qed.
-Print Assumptions C01_dac3_short_refuted.
-Theorem C01_dec3_reserved_refuted : refutes w_dec3_rsv [(n_dec3, RGuard)].
-Proof. exact dec3_rsv_refuted. Qed.
-Print Assumptions C01_dec3_reserved_refuted.
+
+(* what the ghost guards of leaf_guard exclude is really NOT reproduced -- one witness each, replayed on the real code by the search:
+   wvtt cut inside its eight prefix bytes (12 bytes in, 16 out); an esds size field of eleven bytes overflowing readSizeSize's
+   uint64 (C01-K77); the reserved byte of a seig entry of sgpd (C01-K58); a dac3 payload of two bytes (C01-K73); a reserved bit
+   of a dec3 substream (C01-K58) *)
+Theorem C01_guards_refuted :
+  (decode ex_wvtt_short = Ok (treeof ex_wvtt_short, [0; 0; 0; 0]) /\ exact_box (treeof ex_wvtt_short) = false /\
+   leaf_guard (LWvtt 0 true) = false /\ lenN ex_wvtt_short = 12 /\
+   match encode_w (treeof ex_wvtt_short) with Ok enc => lenN enc = 16 | _ => False end) /\
+  refutes w_esds_overflow [(n_esds, RGuard); (n_esds, RRsv false 2)] /\
+  refutes w_sgpd_seig_rsv [(n_sgpd, RGuard); (n_sgpd, RRsv true 0)] /\
+  refutes w_dac3_short [(n_dac3, RSizeSmall); (n_dac3, RGuard)] /\
+  refutes w_dec3_rsv [(n_dec3, RGuard)].
+Proof. exact (conj wvtt_short_refuted (conj esds_overflow_refuted (conj sgpd_seig_rsv_refuted (conj dac3_short_refuted dec3_rsv_refuted)))). Qed.
+Print Assumptions C01_guards_refuted.
